@@ -224,6 +224,15 @@ impl SimHooks for Hooks {
         g.pending += 1;
     }
 
+    fn drained(&self) {
+        // the search thread has just emptied its channel (wherever it did that)
+        if role() != Role::T {
+            return;
+        }
+        let mut g = self.0.lock();
+        g.pending = 0;
+    }
+
     fn before_join(&self) {
         let mut g = self.0.lock();
         g.m = MState::Joining;
